@@ -77,7 +77,7 @@ pub fn checks() -> Vec<Check> {
             "values come from finite catalogues (boundaries, walking bits, float specials), not all 2^64 payloads",
         ],
         ignore_resource_deaths: false,
-        budget_s: (45, 900),
+        budget_s: (120, 900),
     },
     Check {
         id: "C02",
@@ -88,7 +88,8 @@ pub fn checks() -> Vec<Check> {
             st("c02.s4", c02::s4, (0, 0), 3, "C01-S4 programs (hooked capacity x point counts x every catalogue type)"),
             st("c02.meta", c02::meta, (0, 0), 3, "1905 metadata-rich files (every catalogue string incl. non-ASCII and astral characters in every string field, 5 image kinds rotating)"),
             st("c02.ext", c02::ext, (0, 0), 3, "all sequences of <=3 extension registration attempts over 2 prefixes x {2 URLs, empty URL} (a prefix can be registered once, never with an empty URL), then a cloud with an extension attribute"),
-            st("c02.blobs", c02::blobs, (0, 0), 3, "blob + cylindrical image payload length 0..=1023 x 17 start residues"),
+            st("c02.blobs", c02::blobs, (0, 0), 3, "blob + cylindrical image payload length 0..=1023 x 17 start residues; payload sources delivering in full / in halves / alternating (rotated)"),
+            st("c02.long_blobs", c02::long_blobs, (0, 0), 3, "blob and image payloads of 12 long lengths (multi-page, around powers of two, up to 1 MiB) x 3 source read modes"),
         ],
         extra: None,
         rule: "every program of the listed spaces is written by the real writer and judged by e57spec (rules R1-R10: size, page CRCs, header fields, XML well-formedness/namespaces/names/types, offsets and section ids, section/packet lengths and alignment, exact stream byte counts, blob section length convention, overlap, decoded content == harness record); distinct = distinct file bytes",
@@ -97,7 +98,7 @@ pub fn checks() -> Vec<Check> {
             "element names not present in any bundled foreign file are taken from the standard from memory (listed in DESIGN.md §5 C02)",
         ],
         ignore_resource_deaths: false,
-        budget_s: (50, 900),
+        budget_s: (120, 900),
     },
     Check {
         id: "C03",
@@ -117,7 +118,7 @@ pub fn checks() -> Vec<Check> {
             "scenes are 10 fixed small scenes (<=5 points per cloud)",
         ],
         ignore_resource_deaths: false,
-        budget_s: (50, 900),
+        budget_s: (120, 900),
     },
     Check {
         id: "C04",
@@ -126,6 +127,7 @@ pub fn checks() -> Vec<Check> {
             st("c04.lattice", c04::lattice, (3, 4), 3, "presence lattice of 34 optional fields (root, cloud, image): all subsets within <=3 (thorough <=4) toggles of all-absent and of all-present x 5 image kinds x 3 finalize modes"),
             st("c04.types", c04::types, (0, 0), 3, "every catalogue data type (floats with none / both / one-sided limits, ~190 integer and scaled-integer ranges) as coordinate, intensity, colour, time stamp and extension record: prototype read back unchanged"),
             st("c04.scale", c04::scale, (0, 0), 3, "strings of 65535 / 70001 characters (ASCII, 2-byte, 4-byte, markup) in every string field x image kinds; 300 registered extensions"),
+            st("c04.ext", c04::ext, (0, 0), 3, "all sequences of <=3 extension registration attempts over 2 prefixes x {2 URLs, empty URL}: the reader lists exactly the accepted registrations"),
             st("c04.strings", c04::strings, (0, 0), 3, "every catalogue string (all strings of length <=3 over 12 XML-critical characters + 20 long ones) in every string field, rotated per field"),
             st("c04.floats", c04::floats, (0, 0), 3, "every float of the mini-float lattice + specials (NaN, inf, subnormals, extremes) in every float field x 3 projection kinds"),
         ],
@@ -136,7 +138,7 @@ pub fn checks() -> Vec<Check> {
             "file GUID non-empty (documented requirement); partial limit overrides are not expected to round-trip",
         ],
         ignore_resource_deaths: false,
-        budget_s: (50, 900),
+        budget_s: (120, 900),
     },
     Check {
         id: "C05",
@@ -153,7 +155,7 @@ pub fn checks() -> Vec<Check> {
             "an Err is accepted if anywhere in the cloud an invalid-state value outside its documented set is stored",
         ],
         ignore_resource_deaths: false,
-        budget_s: (50, 900),
+        budget_s: (120, 900),
     },
     Check {
         id: "C06",
@@ -162,6 +164,7 @@ pub fn checks() -> Vec<Check> {
             st("c06.product", c06::product, (0, 0), 3, "full product: blob length 0..=1023 x all 255 aligned start residues; payload source delivering in full / in halves / alternating (rotated)"),
             st("c06.long", c06::long, (0, 0), 3, "multi-page lengths 1020k+d (k=1..3, d=-20..20), 2^k-1, 2^k, 2^k+1 for k=12..17 and 20, 200000 x 16 residues x 3 fill patterns x 3 source read modes"),
             st("c06.neighbours", c06::neighbours, (0, 0), 3, "all programs of depth <=3 over blobs, every image kind with/without mask, cloud; unique payload patterns"),
+            st("c06.behind", c06::behind, (0, 0), 3, "a blob and an image with masks (one empty) behind 100 KiB .. 4 MiB of other content x {nothing, a blob, a cloud} behind them"),
             st("c06.many", c06::many, (0, 0), 3, "255 / 256 / 257 / 300 images in one file (kinds rotating, mask on every third, unique payloads): every descriptor leads to its own data"),
             st("c06.tamper", c06::tamper, (0, 0), 3, "crafted descriptors (length -1,+1,+3,+4,+16,+17,+5000,2^63,2^64-1) x section-length patches x 51 residues x 7 lengths"),
         ],
@@ -171,7 +174,7 @@ pub fn checks() -> Vec<Check> {
             "tampering clause in its weakest sound form: any descriptor yields Err or exactly `length` bytes equal to the logical bytes after the 16-byte header",
         ],
         ignore_resource_deaths: false,
-        budget_s: (45, 900),
+        budget_s: (120, 900),
     },
     Check {
         id: "C07",
@@ -191,7 +194,7 @@ pub fn checks() -> Vec<Check> {
             "3-bit and <=32-bit-burst clauses rest on the affinity of CRC (verified on all executed 2-bit flips of one page), not on executing all 9.2e10 triples",
         ],
         ignore_resource_deaths: false,
-        budget_s: (55, 1200),
+        budget_s: (120, 1200),
     },
     Check {
         id: "C08",
@@ -201,7 +204,7 @@ pub fn checks() -> Vec<Check> {
         rule: "mutation neighbourhood enumerated completely: every item of the finite, ordered menu of every seed; each mutant runs validate_crc, raw_xml, new, descriptor listing, raw and simple iteration (8 / 64 option vectors, to the first Err/None or the step cap) and blob extraction under catch_unwind in a subprocess; overflow checks and debug assertions on; distinct = distinct mutant bytes; non-trivial = mutant ran through all entry points",
         assumptions: &["'all byte strings' is covered as the <=1 (thorough <=2) mutation neighbourhood of the seed corpus under a fixed menu", "memory exhaustion and hangs are attributed to C09"],
         ignore_resource_deaths: true,
-        budget_s: (55, 1500),
+        budget_s: (120, 1500),
     },
     Check {
         id: "C09",
@@ -211,7 +214,7 @@ pub fn checks() -> Vec<Check> {
         rule: "same enumeration as C08; a counting global allocator and a counting device measure every single call (open, each next(), each blob); a worker that exceeds the live-byte cap exits with a distinguished status and the case is reported; distinct = distinct mutant bytes; non-trivial = all calls within budget",
         assumptions: &["budgets are per kind of call; the iterator constant covers the legitimate worst case of one 64 KiB packet of 1-bit values (2^19 values held twice)", "watchdog is a timeout, not a termination proof"],
         ignore_resource_deaths: false,
-        budget_s: (55, 1500),
+        budget_s: (120, 1500),
     },
     Check {
         id: "C10",
@@ -233,7 +236,7 @@ pub fn checks() -> Vec<Check> {
             "API misuse outside the listed classes (add_point after finalize, second finalize) is judged by no-panic and by read-back of whatever finalize reported as success",
         ],
         ignore_resource_deaths: false,
-        budget_s: (45, 900),
+        budget_s: (120, 900),
     },
     Check {
         id: "C11",
@@ -246,7 +249,7 @@ pub fn checks() -> Vec<Check> {
             "reader seeks beyond the end or into checksum bytes are not specified by the statement and not judged",
         ],
         ignore_resource_deaths: false,
-        budget_s: (45, 900),
+        budget_s: (120, 900),
     },
     Check {
         id: "C12",
@@ -262,7 +265,7 @@ pub fn checks() -> Vec<Check> {
         rule: "full products; writer output compared bit by bit with e57spec::bits (value - min, LSB first, contiguous), total stream length exactly ceil(N*w/8); reader fed with independently encoded streams under every cut; evaluations count inner (value, flush/split) combinations; distinct = distinct file / stream",
         assumptions: &["only same-width streams are driven through the buffers, i.e. exactly the phases the library can produce", "values inside the declared range only (out-of-range belongs to C10)"],
         ignore_resource_deaths: false,
-        budget_s: (50, 900),
+        budget_s: (120, 900),
     },
     Check {
         id: "C13",
@@ -281,7 +284,7 @@ pub fn checks() -> Vec<Check> {
             "limits that are not a range (lo > hi, NaN) only require the invariants; an Err from the reader is accepted there",
         ],
         ignore_resource_deaths: false,
-        budget_s: (50, 900),
+        budget_s: (120, 900),
     },
     Check {
         id: "C15",
@@ -294,7 +297,7 @@ pub fn checks() -> Vec<Check> {
         rule: "crash image(k,c) = device writes 0..k applied completely + first c bytes of write k; every (k,c) of every program is built and offered to the real reader; accepted images must stem from inside finalize, list the completed file's content and answer every read op with Err or the completed file's result; evaluations = crash images; distinct = distinct image bytes per case; non-trivial = case with at least one image judged",
         assumptions: &["writes reach the device in issue order; a torn write leaves a prefix of the new bytes followed by the old bytes (as the statement says)"],
         ignore_resource_deaths: false,
-        budget_s: (50, 900),
+        budget_s: (120, 900),
     },
     Check {
         id: "C16",
@@ -309,7 +312,7 @@ pub fn checks() -> Vec<Check> {
         rule: "faults: the fault-free run numbers the device operations, then one run per index with exactly that operation failing; the call in progress must return Err, finalize Ok implies the fault-free bytes; chunking: deviation-bounded DFS over the short-transfer choice at every transfer, bytes / results must equal the full-transfer run; distinct = distinct (bytes | failing step); non-trivial = fault fired / at least one short transfer",
         assumptions: &["a short transfer never returns 0 bytes for a non-empty request (that would be EOF / WriteZero, i.e. a fault)", "faults that fire while the writer is dropped are exempt from the 'call returns Err' clause"],
         ignore_resource_deaths: false,
-        budget_s: (50, 900),
+        budget_s: (120, 900),
     },
     Check {
         id: "C17",
@@ -324,7 +327,7 @@ pub fn checks() -> Vec<Check> {
         rule: "every result on a reader with history must equal the memoised result of the same operation on a freshly opened reader over the same bytes (Ok payload hashes exact, Err by class and message); BFS: canonical state = (cached page number, page buffer) through the verification hook, expanded to a fixpoint, every op evaluated in every reachable cache state; distinct_nontrivial = distinct cache states / histories",
         assumptions: &["the canonical-state abstraction is only used to prune the BFS; every kept state is still checked against the fresh-reader oracle", "alphabet: raw/simple iterators with take 0, 1, all per cloud; every image blob and mask; a bogus blob descriptor; xml; pointclouds; images"],
         ignore_resource_deaths: false,
-        budget_s: (55, 900),
+        budget_s: (120, 900),
     },
     Check {
         id: "C18",
@@ -338,7 +341,7 @@ pub fn checks() -> Vec<Check> {
         rule: "full products; the inserted content is always in a namespace different from the E57 namespace (prefix declared on the inserted element) and well-formed (checked with the independent parser); oracle = the report on the unmodified base document (root fields, every descriptor, points and blobs); evaluations = (position, name, shape) triples",
         assumptions: &["foreign child elements are only inserted into container elements (type Structure/Vector/CompressedVector), never into scalar elements and never inside a prototype", "children of an inserted foreign element are prefixed too, i.e. really foreign"],
         ignore_resource_deaths: false,
-        budget_s: (55, 900),
+        budget_s: (120, 900),
     },
     Check {
         id: "C19",
@@ -354,7 +357,7 @@ pub fn checks() -> Vec<Check> {
         rule: "differential oracle: read(copy(F)) vs read(F) through the real reader (descriptors except file offsets and writer-computed bounds, raw points, blob bytes; limits when complete), byte equality of copy(copy(F)) and of repeated writes; the copier is the obvious public-API loop; files outside the writer's documented prototype rules or without GUIDs are filtered by rule, not by trying; distinct = distinct copies",
         assumptions: &["bounds are recomputed by the writer and therefore not compared with foreign originals", "partial limits are dropped by design of the writer (documented in the changelog)"],
         ignore_resource_deaths: false,
-        budget_s: (55, 900),
+        budget_s: (120, 900),
     },
     Check {
         id: "C20",
@@ -370,7 +373,7 @@ pub fn checks() -> Vec<Check> {
         rule: "the five tool binaries are built from /repo's workspace and run as subprocesses on files in a private work directory; T1 numeric comparison of parsed output with the f32 values / colour integers written (-0 == 0), T2 exit status, T3 byte equality with library results; evaluations = lines / files compared",
         assumptions: &["T1 judges single-space separated clean tokens (what the tool documents) and finite coordinates", "a tool may fail where the library fails; it must not succeed with other data"],
         ignore_resource_deaths: false,
-        budget_s: (55, 900),
+        budget_s: (120, 900),
     },
     Check {
         id: "C14",
@@ -386,6 +389,6 @@ pub fn checks() -> Vec<Check> {
         rule: "deviation-bounded DFS: all cases with at most d non-default choices; bounds compared numerically with an independent fold over the harness's point list; non-trivial = cloud with points",
         assumptions: &["NaN coordinates are excluded (min/max over NaN is not defined by the statement)", "partial limit overrides are not judged"],
         ignore_resource_deaths: false,
-        budget_s: (45, 900),
+        budget_s: (120, 900),
     }]
 }
